@@ -49,7 +49,12 @@ def run_one(name, diff, prop, rule, keep_output=False):
             if l.startswith("VIOLATION"):
                 detail = " | ".join(x.strip() for x in lines[i + 1:i + 3])
                 hit.append(detail)
-        if any(("rule " + rule + ":") in h for h in hit):
+        if rule == "NONE":
+            # behaviour-preserving variant: the checks must stay silent
+            res["status"] = "silent (as required)" if not hit else "FALSE-ALARM"
+            if hit:
+                res["report"] = hit[0][:300]
+        elif any(("rule " + rule + ":") in h for h in hit):
             res["status"] = "detected"
             res["report"] = [h for h in hit if ("rule " + rule + ":") in h][0][:300]
         elif hit:
@@ -76,6 +81,6 @@ if __name__ == "__main__":
     bad = 0
     for r in run_all(prop, jobs):
         print("%-42s %-28s %s" % (r["mutant"], r["expects"], r["status"]))
-        if r["status"] in ("MISSED",):
+        if r["status"] in ("MISSED", "FALSE-ALARM"):
             bad += 1
     sys.exit(1 if bad else 0)
